@@ -41,7 +41,9 @@ def ops(s):
     _res.append((s, 'strip', s.strip(), s.lstrip(), s.rstrip(), s.strip('a'), s.lstrip('ab'), s.rstrip('b '), t(lambda: s.strip(None))))
     _res.append((s, 'strip2', [(s.strip(c), s.lstrip(c), s.rstrip(c)) for c in STRIPS]))
     _res.append((s, 'split', s.split(), t(lambda: s.split('a')), t(lambda: s.split(' ')), t(lambda: s.split('a', 1)), t(lambda: s.split(None, 1)), t(lambda: s.split('ab')), t(lambda: s.split(''))))
-    _res.append((s, 'mul', s * 0, s * 2, 2 * s, s * -1))
+    _res.append((s, 'splitmax', [t(lambda: s.split(sep, m)) for sep in (None, 'a', ' ', 'ab') for m in (-1, 0, 1, 2, True, False, -2, 2**64)]))
+    _res.append((s, 'replacemax', [t(lambda: s.replace('a', 'Z', m)) for m in (-1, 0, 1, True, False, 2**64)]))
+    _res.append((s, 'mul', s * 0, s * 2, 2 * s, s * -1, s * True, s * -2**63, t(lambda: s * 2**64 if s else 'OverflowError'), t(lambda: s[:0] * 2**64)))
     _res.append((s, 'join', s.join(['x', 'y', 'z']), s.join([]), s.join(['q']), ''.join([s, s]), t(lambda: s.join([1]))))
     _res.append((s, 'ord', [ord(c) for c in s], [chr(ord(c)) == c for c in s]))
     for sub in SUBS:
@@ -257,6 +259,7 @@ func TestC14(t *testing.T) {
 		runC14(r, prog, "ordchr", nil)
 		c14RoundTrip(r)
 		c14CaseSweep(r)
+		c14SpaceSweep(r)
 	}
 	// repr round trip over the code space: quick = the BMP and every 17th astral code point, thorough = everything
 	{
@@ -447,6 +450,32 @@ for n in range(%d, %d, %d):
 // c14CaseSweep: upper() and lower() of every code point against CPython. gpython's tables (the Go unicode package) are of a
 // later Unicode version than CPython 3.6's: a mapping is fenced when the code point itself or
 // a code point of its result is unassigned according to CPython's unicodedata; every mapping CPython has must be reproduced exactly.
+// c14SpaceSweep: which code points are white space for split() and strip(), over every code point
+func c14SpaceSweep(r *Run) {
+	prog := `_res = []
+for n in range(0x110000):
+    if 0xd800 <= n < 0xe000:
+        continue
+    c = chr(n)
+    w = 'a' + c + 'b'
+    v = c + 'a' + c
+    k = (len(w.split()) == 2) + 2 * (v.strip() == 'a') + 4 * (v.lstrip() == 'a' + c) + 8 * (v.rstrip() == c + 'a') + 16 * (len(w.split(None, 1)) == 2)
+    if k:
+        _res.append((n, k))
+_res.append((chr(True), ord(chr(False))))
+`
+	d, err := PyDiff(prog, PyDiffOpts{Vars: c14Vars, Timeout: 120 * time.Second})
+	if err != nil {
+		r.Infra("%v", err)
+	}
+	r.Class("space-sweep")
+	r.Count("space-sweep", true)
+	if d.Sig != "" {
+		r.Mismatch(&Case{Kind: "pydiff", Sig: "space-sweep:" + d.Sig, Program: prog, Vars: c14Vars, Expected: d.Expected, Actual: d.Actual, Detail: d.Detail})
+	}
+	r.Sample("space-sweep", "split()/strip()/lstrip()/rstrip() around chr(n) for every code point n")
+}
+
 func c14CaseSweep(r *Run) {
 	prog := `_res = []
 for n in range(0x110000):
